@@ -443,6 +443,8 @@ def history_lines(rng, tier):
 
 
 # ------------------------------------------------------------------ registry
+P386 = ('C01', 'C04', 'C05', 'C08', 'C11', 'C18')   # also run on the GOARCH=386 build (portable ff code through the public API)
+
 SIMPLE = {
     'C01': gens.gen_C01, 'C04': gens.gen_C04, 'C05': gens.gen_C05, 'C06': gens.gen_C06, 'C07': gens.gen_C07,
     'C08': gens.gen_C08, 'C09': gens.gen_C09, 'C10': gens.gen_C10, 'C11': gens.gen_C11, 'C12': gens.gen_C12,
@@ -483,7 +485,7 @@ def main():
     notes = []
 
     try:
-        b = ensure_built(need_race=(pid == 'C17'), need_386=(tier == 'thorough' and pid in ('C01', 'C05', 'C11')))
+        b = ensure_built(need_race=(pid == 'C17'), need_386=(pid in P386))
     except BuildError as e:
         b = None
         violations.append(('the harness does not build against the current /repo', dict(kind='build', log=str(e))))
@@ -567,11 +569,16 @@ def main():
             m2 = compare(cases, impl2, model, project)
             extra['noadx_mismatches'] = len(m2)
             mism += m2
-        if os.path.exists(BIN + '/harness_386') and pid in ('C01', 'C05', 'C11') and tier == 'thorough':
-            rc3, impl3, _ = run_cases(lines, pid + '_386', exe='harness_386')
-            m3 = compare(cases, impl3, model, project)
-            extra['portable386_mismatches'] = len(m3)
-            mism += m3
+        if os.path.exists(BIN + '/harness_386') and pid in P386 and not replay:
+            rc3, impl3, _ = run_cases(lines, pid + '_386', exe='harness_386', flags='-purity')
+            if rc3 == 0 and len(impl3) >= len(cases):
+                impl3 = [re.sub(FL, '', x) for x in impl3]
+                m3 = compare(cases, impl3, model, project)
+                extra['portable386_mismatches'] = len(m3)
+                extra['portable386_cases'] = len(cases)
+                mism += m3
+            else:
+                extra['portable386_skipped'] = 'binary did not run here (rc=%d)' % rc3
         if not replay:
             ic = incoq_sample(pid, cases, model, random.Random(seed + 7), 6 if tier == 'quick' else 40)
             extra.update(ic)
